@@ -60,7 +60,7 @@ def gen():
 
     @st.composite
     def g(draw):
-        spec = draw(mg.spec_strategy(max_vars=6))
+        spec = draw(mg.spec_strategy(max_vars=6, roles=("param", "obs", "plain", "unflagged", "both")))
         nv = len(spec["vars"])
         ex = {}
         if draw(st.integers(0, 3)) == 0:
